@@ -256,6 +256,7 @@ func TestVerifRpcGuard(t *testing.T) {
 
 	calls, skipped := 0, 0
 	dirty := true
+	signedBy := map[string]bool{}
 	for _, tr := range []string{"inproc", "ipc", "http", "ws"} {
 		h := handlers[tr]
 		if h == nil {
@@ -298,6 +299,9 @@ func TestVerifRpcGuard(t *testing.T) {
 				err := clients[tr].CallContext(cctx, &result, m.Name, args...)
 				ccancel()
 				delta := atomic.LoadUint64(&keystore.VerifSignCount) - before
+				if delta > 0 {
+					signedBy[tr] = true
+				}
 				es := ""
 				if err != nil {
 					es = err.Error()
@@ -306,8 +310,40 @@ func TestVerifRpcGuard(t *testing.T) {
 					}
 				}
 				emit(map[string]interface{}{"e": "call", "env": env, "transport": tr, "method": m.Name, "profile": p.name, "args": append([]string{}, m.Args...),
-					"signed": delta, "err": es})
+					"signed": delta, "err": es, "batch": false})
 				calls++
+				// the same request as a JSON-RPC batch of one (a separate dispatch path in the server)
+				if p.name == "unlocked-rightpass" || p.name == "unlocked-pending" {
+					if dirty || strings.HasPrefix(m.Name, "personal_") || strings.HasPrefix(m.Name, "admin_") {
+						ks.Lock(accL.Address)
+						ks.TimedUnlock(accounts.Account{Address: accU.Address}, passU, 0)
+					}
+					if p.name == "unlocked-pending" {
+						ensurePending()
+					}
+					before = atomic.LoadUint64(&keystore.VerifSignCount)
+					bctx, bcancel := context.WithTimeout(ctx, 15*time.Second)
+					var bres json.RawMessage
+					elems := []rpcclient.BatchElem{{Method: m.Name, Args: args, Result: &bres}}
+					berr := clients[tr].BatchCallContext(bctx, elems)
+					bcancel()
+					delta = atomic.LoadUint64(&keystore.VerifSignCount) - before
+					if delta > 0 {
+						signedBy[tr] = true
+					}
+					es = ""
+					if berr != nil {
+						es = berr.Error()
+					} else if elems[0].Error != nil {
+						es = elems[0].Error.Error()
+					}
+					if len(es) > 90 {
+						es = es[:90]
+					}
+					emit(map[string]interface{}{"e": "call", "env": env, "transport": tr, "method": m.Name, "profile": p.name, "args": append([]string{}, m.Args...),
+						"signed": delta, "err": es, "batch": true})
+					calls++
+				}
 				if strings.HasPrefix(m.Name, "personal_") || strings.HasPrefix(m.Name, "admin_") {
 					dirty = true
 				}
@@ -317,6 +353,13 @@ func TestVerifRpcGuard(t *testing.T) {
 			}
 		}
 	}
+	signedOn := []string{}
+	for _, tr := range []string{"inproc", "ipc", "http", "ws"} {
+		if signedBy[tr] {
+			signedOn = append(signedOn, tr)
+		}
+	}
+	emit(map[string]interface{}{"e": "envsummary", "env": env, "signedOn": signedOn})
 	fmt.Printf("VERIF-STAT events=%d calls=%d skipped=%d env=%s\n", nev, calls, skipped, strings.Join(env, ","))
 }
 
